@@ -50,7 +50,9 @@ CLAIMS = {
                      "the allocation pass cannot be added to any READY/WORKING non-automatic task it is skilled and targeted for (C06_idle, C06_idle_step, "
                      "C06_idle_run); the worker-facility-pair form for facility tasks of single-task components: a FREE unassigned worker and a FREE facility of "
                      "the workplace where the component sits after the pass cannot be added as a pair (C06_idle_pair, C06_idle_pair_step, C06_idle_pair_run; "
-                     "the single-task hypothesis is necessary: machine-checked counterexample with two tasks on one component).",
+                     "the single-task hypothesis is necessary: machine-checked counterexample with two tasks on one component); and a READY single-task component "
+                     "that is still unplaced after a pass in which nothing moved could not enter any workplace of its task (C06_unplaced, C06_unplaced_step_obs, "
+                     "C06_unplaced_run; 'nothing moved' is necessary: machine-checked run where a later task frees the workplace).",
                 design="6 C06", technique="Lean 4 proof (post-conditions of the update block, fold argument over the allocation pass: refusals persist) + phase-level correspondence"),
     "C09": dict(text="Proved for the model: with both initialisation flags the entered state, hence the whole result, does not depend on the previous "
                      "state of the project at all — re-simulation, any earlier history of operations, or a fresh object give the same result "
@@ -97,9 +99,12 @@ CLAIMS = {
                      "C05_live_shared, C05_live_dedicated): no facility tasks, automatic tasks without component and with positive rate, FS/SS links "
                      "only on an acyclic in-range graph, every non-automatic task has an eligible worker (workers may be shared, solo, individually "
                      "absent): if max_time >= |project absences| + |individual absences| + sum over tasks of (3 + ceil(rem0/delta)) the run ends in "
-                     "SUCCESS within that bound (decreasing-measure argument, C05_live_measure). Outside L — FF/SF links (a shared worker can be held by "
-                     "a waiting successor: machine-checked example, consistent with the property's 'worker of its own' premise), facility/component "
-                     "placement — liveness is checked by search only (explicit feasibility test and bound in the predicate).",
+                     "SUCCESS within that bound (decreasing-measure argument, C05_live_measure). All four link kinds (C05_live_gates, C05_live_gates_dedicated, "
+                     "C05_live_gates_general; fragment LG): the same bound holds with FF/SF links when the worker relied upon for a task is eligible for no OTHER "
+                     "task that has an FF/SF input — in particular when the tasks at FF/SF links have workers of their own, the property's premise; the clause "
+                     "is necessary (C05_live_gates_counterexample_shared: a gated task with an own worker still starves its predecessor by also taking the "
+                     "predecessor's only worker; replayed on the code). Outside LG — facility/component placement, automatic tasks in components — liveness "
+                     "is checked by search only (explicit feasibility test and bound; for facility models differentially against the validated model).",
                 design="6 C05", technique="Lean 4 proof of the loop skeleton and of the unservable-task invariant + whole-run correspondence (status, time)"),
     "C10": dict(text="Proved for the model. Clauses 1-2: at a project absence step nothing is allocated, non-automatic tasks keep their remaining work, "
                      "automatic ones progress iff the flag is set, every resource is logged ABSENCE and every cost entry is 0 (C10_absence_step, "
